@@ -29,7 +29,9 @@ open B6.Driver B6.Driver.SkelIO B6.Model.RefIndex
 namespace B6.Driver.C15
 abbrev Id := B6.Model.RefIndex.Id
 
-def parseFeature (s : String) : Option Feature :=
+/-- `<id>=<refs>[;attr…]`: attributes (how a collection's keys are typed, …) do not change the references -/
+def parseFeature (s0 : String) : Option Feature :=
+  let s := (s0.splitOn ";").headD ""
   match s.splitOn "=" with
   | [a, b] => do
     let id ← parseId a
